@@ -187,33 +187,32 @@ theorem builtin_wellDeclared (v : Rat) (k : Nat) (c : List Rat) :
 
 /-! ### the code AS IT IS (`Cfg.current`; to be replaced by the `_full` theorems when fix-1 / fix-5 land) -/
 
-/-- today's code has neither repair -/
-theorem current_code : Cfg.current.emptyOk = false ∧ Cfg.current.countUncached = false := ⟨rfl, rfl⟩
+/-- the code has both repairs -/
+theorem current_code : Cfg.current.emptyOk = true ∧ Cfg.current.countUncached = true := ⟨rfl, rfl⟩
 
-/-- today: the empty batch raises `IndexError` although the property promises shape `(0, output_length())` -/
-theorem current_empty_batch_raises (F : Fn) (s : St) :
-    step Cfg.current F s (.batch []) = (s, .error .index) :=
-  (empty_batch_counterexample Cfg.current current_code.1 F s).1
+/-- the empty batch returns shape `(0, output_length())` -/
+theorem current_empty_batch (F : Fn) (s : St) : step Cfg.current F s (.batch []) = (s, .values []) :=
+  (empty_batch_full Cfg.current current_code.1 F s).1
 
-/-- today: the counter misses single points evaluated while caching is off -/
-theorem current_counter_undercounts (F : Fn) (p : Pt) (hp : p ≠ []) :
-    (run Cfg.current F St.init [.deactivate, .single p, .size]).2.getLast? = some (.count 0) ∧
-      (trace Cfg.current [.deactivate, .single p]).evaluated.toFinset.card = 1 :=
-  size_counterexample Cfg.current current_code.2 F p hp
+/-- the counter equals the number of distinct points evaluated since the last reset, for every history -/
+theorem current_counter (F : Fn) (hF : WellDeclared F) (ops : List Op) :
+    (run Cfg.current F St.init (ops ++ [.size])).2.getLast? =
+      some (.count (trace Cfg.current ops).evaluated.toFinset.card) :=
+  size_distinct_full Cfg.current current_code.2 F hF ops
 
 /-! non-vacuity of Part A: a concrete well-declared function (FunctionLinear([1,2])), a concrete history with
     repetition, batch, deactivation and reset -/
 example : (run Cfg.current (linearFn [1, 2]) St.init
     [.single [1/2, 1/4], .batch [[1/2, 1/4], [1, 1]], .single [1, 1], .size, .deactivate, .single [3, 1], .size,
      .reset, .size, .single [1, 1], .batch []]).2 =
-    [.value [1/4] true, .values [[1/4], [2]], .value [2] false, .count 2, .unit, .value [6] true, .count 2,
-     .unit, .count 0, .value [2] true, .error .index] := by decide +kernel
+    [.value [1/4] true, .values [[1/4], [2]], .value [2] false, .count 2, .unit, .value [6] true, .count 3,
+     .unit, .count 0, .value [2] true, .values []] := by decide +kernel
 example : (run ⟨true, true⟩ (linearFn [1, 2]) St.init
     [.deactivate, .single [3, 1], .size, .batch []]).2 = [.unit, .value [6] true, .count 1, .values []] := by
   decide +kernel
 example : noSingleWhileOff true [.single [1], .deactivate, .batch [[2], [1]], .reset, .size] = true := by decide
 example : noSingleWhileOff true [.deactivate, .single [1]] = false := by decide
-example : (trace Cfg.current [.single [1], .deactivate, .single [2], .batch [[1], [3]]]).counted = [[1], [3]] := by
+example : (trace Cfg.current [.single [1], .deactivate, .single [2], .batch [[1], [3]]]).counted = [[1], [2], [3]] := by
   decide +kernel
 example : (trace ⟨false, true⟩ [.single [1], .deactivate, .single [2], .batch [[1], [3]]]).counted = [[1], [2], [3]] := by
   decide +kernel
@@ -282,8 +281,8 @@ theorem multilinear_code_wrong :
     rw [this]; norm_num
 
 /-- the formula of the code under test (what the driver executes) is today the coded one: fix-2 is absent -/
-theorem current_multilinear_is_coded (c s e : List ℚ) :
-    anaMultilinearCurrent c s e = anaMultilinear c s e := by
+theorem current_multilinear_is_repaired (c s e : List ℚ) :
+    anaMultilinearCurrent c s e = anaMultilinearFixed c s e := by
   simp [anaMultilinearCurrent, multilinearRepaired]
 
 /-! non-vacuity of Part B: concrete values of the executed formulas -/
